@@ -177,7 +177,8 @@ func c02Family(c *explore.Ctx, s *explore.SubStats, f *gen.Family, n int) {
 	budget := c02FamBound(n)
 	var errs gqlerror.List
 	t0 := time.Now()
-	r := guarded(budget, 100000, func() { errs = validator.Validate(kitSchema(0), doc) })
+	// call depth: polynomial as well (measured worst: fragment cycles, ≈ n²/2 frames)
+	r := guarded(budget, 10000+4*n*n, func() { errs = validator.Validate(kitSchema(0), doc) })
 	s.Validated++
 	s.MaxOf("steps_per_byte", r.Steps/int64(len(text)+1))
 	s.MaxOf("wall_ms", time.Since(t0).Milliseconds())
@@ -236,7 +237,7 @@ func runC02(c *explore.Ctx) {
 	}
 	maxN := c.Pick(256, 1024)
 	s = c.Sub("families", fmt.Sprintf("%d adversarial size families (fragment fan-out plain / under __schema / under a subscription / under overlapping fields, fragment cycles, chains, deep and wide selections, alias floods, wide arguments / variables / directives / operations, nested values) × n = 1, 2, 3, …, 24 and 2^k up to %d", len(gen.ValidFamilies), maxN),
-		"Validate returns normally within the polynomial step bound 2·10⁶ + 10⁵·n + 15·n³ and call depth < 10⁵", "every case")
+		"Validate returns normally within the polynomial step bound 2·10⁶ + 10⁵·n + 15·n³ and call depth < 10⁴ + 4·n² (a worker killed by stack exhaustion is a crash violation)", "every case")
 	if s != nil {
 		t0 := time.Now()
 		idx := 0
